@@ -391,7 +391,7 @@ func c20sScenario(p c20sParams, bound int) vh.SScenario {
 }
 
 func TestVerifC20PoolS(t *testing.T) {
-	r := vres.Open("C20", "PoolS")
+	r := vres.Open("C20", racePart("PoolS"))
 	defer func() {
 		if err := r.Close(); err != nil {
 			t.Fatal(err)
